@@ -7,9 +7,54 @@ from common import (gen_raster_net, mk_raster, canon_idx, ints, net_features, ma
 OPS = ["basins(default)", "basins(idxs,ids)", "basins(xy,ids)", "basins(errors)", "basin_outlets"]
 RULE = ("random loop-free networks on rasters <= 56 cells (quick) / <= 400 (thorough): D8 networks from "
         "random DEMs and arbitrary forests; outlet sets = pits, interior cells, nested outlets, duplicates, "
-        "coordinates; ids random non-zero of dtype u8/u32/i64. non-trivial = >= 2 valid cells, >= 1 confluence, "
+        "coordinates (any position inside the cell: centre, k/8, 2**-20/-33/-40 of a cell from the low / high edge; "
+        "unit and dyadic georeferences); ids random non-zero of dtype u8/u32/i64. non-trivial = >= 2 valid cells, >= 1 confluence, "
         "path length >= 3; distinct = SHA-1 of (op, network, outlets, ids)")
 ID_DTYPES = [np.uint8, np.uint32, np.int64, np.uint64]
+# georeferences for outlets given by coordinates: all coefficients dyadic, so that cell edges, the offsets below and
+# the library's inverse transform are exact in binary64 and 'the cell containing the point' is unambiguous
+XY_TRANSFORMS = [None, None, (0.5, 0.0, 10.0, 0.0, -0.25, 20.0), (2.0, 0.0, -16.0, 0.0, -2.0, 8.0),
+                 (0.25, 0.0, -3.0, 0.0, -0.5, -5.0)]
+EDGE_EXPS = [20, 33, 40]     # distance to the cell edge = 2**-e of a cell
+
+
+def _cell_fraction(rng, ctx):
+    """position inside a cell along one axis, as an exact Fraction in [0, 1): the centre, k/8, or 2**-e from the low
+    / high edge"""
+    from fractions import Fraction
+    u = rng.random()
+    if u < 0.25:
+        return Fraction(1, 2), "centre"
+    if u < 0.5:
+        k = rng.randint(0, 7)
+        return Fraction(k, 8), ("low-edge" if k == 0 else "eighth")
+    e = rng.choice(EDGE_EXPS)
+    if rng.random() < 0.5:
+        return Fraction(1, 2 ** e), "edge-low"
+    return 1 - Fraction(1, 2 ** e), "edge-high"
+
+
+def _xy_of(rng, ctx, outlets, shape, tr):
+    """coordinates of points inside the outlet cells + the exact (rational arithmetic) cell containing each point"""
+    from fractions import Fraction
+    import math
+    a, _, c, _, e, f = [Fraction(v) for v in (tr or (1.0, 0.0, 0.0, 0.0, -1.0, 0.0))]
+    ncol = shape[1]
+    xs, ys, cells = [], [], []
+    for o in outlets:
+        fx, kx = _cell_fraction(rng, ctx)
+        fy, ky = _cell_fraction(rng, ctx)
+        ctx.count("xy-pos:" + kx)
+        ctx.count("xy-pos:" + ky)
+        x = float(c + a * (o % ncol + fx))
+        y = float(f + e * (o // ncol + fy))
+        col = math.floor((Fraction(x) - c) / a)
+        row = math.floor((Fraction(y) - f) / e)
+        assert (row, col) == divmod(o, ncol), ("harness: coordinate not exactly representable", o, x, y)
+        xs.append(x)
+        ys.append(y)
+        cells.append(row * ncol + col)
+    return xs, ys, cells
 
 
 def run(ctx):
@@ -72,13 +117,32 @@ def run(ctx):
                 pool = [x + big * (1 if x > 0 else -1) + 2 * k + 1 for k, x in enumerate(pool)]
                 ctx.count("large-ids")
             ids_np = np.array(pool, dtype=dt)
+            desc = {"op": "basins", **base, "outlets": outlets, "ids": pool, "dtype": np.dtype(dt).name, "via": mode}
             if mode == "idxs":
                 out = flw.basins(idxs=np.array(outlets, dtype=np.int64), ids=ids_np)
             else:
-                xs = [(o % shape[1]) + 0.5 for o in outlets]
-                ys = [-((o // shape[1]) + 0.5) for o in outlets]
-                out = flw.basins(xy=(np.array(xs), np.array(ys)), ids=ids_np)
-            desc = {"op": "basins", **base, "outlets": outlets, "ids": pool, "dtype": np.dtype(dt).name, "via": mode}
+                # outlets given by coordinates behave as the cell containing the point: any position inside the cell
+                # (centre, k/8, 2**-20 .. 2**-40 of a cell from the low / high edge), unit and dyadic georeferences
+                tr = rng.choice(XY_TRANSFORMS)
+                if tr is not None:
+                    from affine import Affine
+                    try:
+                        flw = mk_raster(ds, shape, transform=Affine(*tr))
+                    except ValueError:
+                        ctx.count("ctor-rejected")
+                        continue
+                    seq = canon_idx(flw.idxs_seq, n)
+                    ctx.count("xy-dyadic-transform")
+                xs, ys, _ = _xy_of(rng, ctx, outlets, shape, tr)
+                desc.update({"xy": [xs, ys], "xy_hex": [[v.hex() for v in xs], [v.hex() for v in ys]],
+                             "transform": list(tr) if tr is not None else None})
+                try:
+                    out = flw.basins(xy=(np.array(xs), np.array(ys)), ids=ids_np)
+                except Exception as e:
+                    ctx.evaluations += 1
+                    ctx.fail(desc, "spec", f"basins(xy=...) with points inside valid cells {outlets} raised "
+                             f"{exc_class(e)}: {e}")
+                    continue
             _add_basins(ctx, desc, ds, seq, outlets, pool, out, dt, nontriv)
             # outlet query on the produced map (distinct ids -> exactly one outlet per basin)
             if len(set(pool)) == len(pool) and len(set(outlets)) == len(outlets):
